@@ -38,7 +38,7 @@ static C01: Check = Check {
 static C02: Check = Check {
     property: "C02",
     level: "fault_enumeration",
-    rule: "one run = one honest credential, then every fault of the catalogue applied to a copy of the Credential frame and delivered to the holder: 40 of the 640 signature bit flips (run index mod 16 selects the slice, so 16 consecutive runs enumerate all 640), every single-element list fault for L<=8 (alter first/middle/last byte, drop, dup, swap, insert, truncate, extend), 9 header faults, misroute to other suite / blind interface / other key, 6 stored-pk bit flips, blind-interface signature at plain endpoints; verdict by content (MustReject unless the delivered statement equals a signed one); a case = one delivered frame that reached the verifier",
+    rule: "one run = one honest credential, then every fault of the catalogue applied to a copy of the Credential frame and delivered to the holder: 40 of the 640 signature bit flips (run index mod 16 selects the slice, so 16 consecutive runs enumerate all 640), every single-element list fault for L<=8 (alter first/middle/last byte, drop, dup, swap, insert, truncate, extend), 9 header faults, misroute to other suite / blind interface / other key, 6 stored-pk bit flips, blind-interface signature at plain endpoints; verdict by content (MustReject unless the delivered statement equals a signed one); a case = one delivered frame that reached the verifier; every fourth run uses a list length from {128, 257, 64, 32, 129, 256, 33, 65, 127, 258, 63, 31, 255} (walked by the run index) with the edge edits (first / last element, append, cut the tail, swap across the list) plus a random sample instead of the complete catalogue, long lists disclosed completely; headers / presentation headers also of 4095, 4096, 4097 and 6000 octets",
     quick_runs: 64,
     thorough_runs: 640,
     run: scen_sig::run_c02,
@@ -46,7 +46,7 @@ static C02: Check = Check {
     real: REAL,
     simulated: SIMULATED,
     exhaustive_after: Some(16),
-    probes: &[],
+    probes: &["list_length_at_a_power_of_two_edge"],
 };
 
 static C03: Check = Check {
@@ -65,7 +65,7 @@ static C03: Check = Check {
 static C04: Check = Check {
     property: "C04",
     level: "fault_enumeration",
-    rule: "one run = one honest presentation, then the corrupting catalogue on the Presentation frame: bit flips of the 272 fixed octets in 16 slices (16 consecutive runs enumerate all 2176) plus all 256 bits of one m^ response; truncation/extension by whole scalars; dropped/inserted response; every single-element fault of the disclosed-message list; every integer corruption of every index; permuted / dropped / duplicated / added (index, message) pairs; 9 header and 9 ph faults; header<->ph swap; misroute to other suite / blind interface / other key / stored-pk bit flips; and Mallory's frames built from public data only (8 degenerate-element families x 3 claimed statements, through from_bytes and through the JSON decoder); verdict by content; a case = one delivered frame",
+    rule: "one run = one honest presentation, then the corrupting catalogue on the Presentation frame: bit flips of the 272 fixed octets in 16 slices (16 consecutive runs enumerate all 2176) plus all 256 bits of one m^ response; truncation/extension by whole scalars; dropped/inserted response; every single-element fault of the disclosed-message list; every integer corruption of every index; permuted / dropped / duplicated / added (index, message) pairs; 9 header and 9 ph faults; header<->ph swap; misroute to other suite / blind interface / other key / stored-pk bit flips; and Mallory's frames built from public data only (8 degenerate-element families x 3 claimed statements, through from_bytes and through the JSON decoder); verdict by content; a case = one delivered frame; every fourth run uses a list length from {128, 257, 64, 32, 129, 256, 33, 65, 127, 258, 63, 31, 255} (walked by the run index) with the edge edits (first / last element, append, cut the tail, swap across the list) plus a random sample instead of the complete catalogue, long lists disclosed completely; headers / presentation headers also of 4095, 4096, 4097 and 6000 octets",
     quick_runs: 48,
     thorough_runs: 480,
     run: scen_proof::run_c04,
@@ -73,13 +73,13 @@ static C04: Check = Check {
     real: REAL,
     simulated: SIMULATED,
     exhaustive_after: Some(16),
-    probes: &["U=0", "R=0", "L=0"],
+    probes: &["U=0", "R=0", "L=0", "list_length_at_a_power_of_two_edge"],
 };
 
 static C08: Check = Check {
     property: "C08",
     level: "fault_enumeration",
-    rule: "the space {15 octet-string entry points} x {7 content classes: honest (truncated below / extended by scalar-shaped material above its length), honest with one bit flipped, zeros, 0xFF, identity pattern, PRNG, honest prefix + maxed scalars} x {every length 0..=1024} (fixed-size parameters: 64 content variants at the only admissible length), plus {6 serde_json decoders} x {every truncation of the honest JSON, every value leaf replaced by 11 wrong-type tokens, huge arrays/strings}, plus corrupted integers (every index entry, L, update_index over {0,1,L-1,L,L+1,+-1,2^31,2^32,2^63,MAX-1,MAX}) and malformed index lists, is split by run index: run k enumerates one (entry, class) completely; 129 consecutive runs cover the whole space; a case = one delivered frame; the victim node must return, within 64+4*measure ticks and 1MiB+16KiB*measure requested bytes (measure = ceil(octets/32) + index entries + trusted counts)",
+    rule: "the space {15 octet-string entry points} x {7 content classes: honest (truncated below / extended by scalar-shaped material above its length), honest with one bit flipped, zeros, 0xFF, identity pattern, PRNG, honest prefix + maxed scalars} x {every length 0..=1024} (fixed-size parameters: 64 content variants at the only admissible length), plus {6 serde_json decoders} x {every truncation of the honest JSON, every value leaf replaced by 11 wrong-type tokens, huge arrays/strings}, plus corrupted integers (every index entry, L, update_index over {0,1,L-1,L,L+1,+-1,2^31,2^32,2^63,MAX-1,MAX}) and malformed index lists, is split by run index: run k enumerates one (entry, class) completely; 129 consecutive runs cover the whole space; a case = one delivered frame; the victim node must return, within 64+4*measure ticks and 1MiB+16KiB*measure requested bytes (measure = ceil(octets/32) + index entries + trusted counts); the wrong-type catalogue of the JSON decoders includes non-hex, UTF-8 and upper-case strings of 64, 96, 192 and 384 characters (every length a codec of the library knows)",
     quick_runs: 129,
     thorough_runs: 258,
     run: scen_robust::run_c08,
@@ -93,7 +93,7 @@ static C08: Check = Check {
 static C09: Check = Check {
     property: "C09",
     level: "fault_enumeration",
-    rule: "per artefact type {PublicKey, SecretKey, Signature, BlindSignature, PoKSignature, ZKPoK, Commitment, BlindFactor} and ciphersuite, around an honest encoding: (part 0) store round trips across a node restart in every codec (octets, JSON, pk coordinates), extension by 1..=64 octets x 3 content classes, truncation to every length; (part 1) every single-bit flip; (part 2) every non-canonical / forbidden substitution in every point and scalar slot (scalar+r, +2r, =r, =2^256-1, =0, =r-1; identity, identity+sort flag, infinity flag with non-zero x, compression flag cleared, infinity flag on a point, non-subgroup point, off-curve x, x>=p, sort flag flipped); run index -> (suite, type, part): 48 consecutive runs enumerate everything; oracle: accepted => re-encoding equals the delivered octets, forbidden class => Err; a case = one delivered octet string that reached a decoder (wrong lengths for fixed-size array parameters are excluded by the type and not counted)",
+    rule: "per artefact type {PublicKey, SecretKey, Signature, BlindSignature, PoKSignature, ZKPoK, Commitment, BlindFactor} and ciphersuite, around an honest encoding: (part 0) store round trips across a node restart in every codec (octets, JSON, pk coordinates), extension by 1..=64 octets x 3 content classes, truncation to every length; (part 1) every single-bit flip; (part 2) every non-canonical / forbidden substitution in every point and scalar slot (scalar+r, +2r, =r, =2^256-1, =0, =r-1; identity, identity+sort flag, infinity flag with non-zero x, compression flag cleared, infinity flag on a point, non-subgroup point, off-curve x, x>=p, sort flag flipped); run index -> (suite, type, part): 48 consecutive runs enumerate everything; oracle: accepted => re-encoding equals the delivered octets, forbidden class => Err; a case = one delivered octet string that reached a decoder (wrong lengths for fixed-size array parameters are excluded by the type and not counted); the coordinate form x || y fed to the octet decoder (a foreign encoding of the same key), and forbidden coordinates (a curve point outside the subgroup, a point off the curve, infinity)",
     quick_runs: 48,
     thorough_runs: 192,
     run: scen_codec::run_c09,
@@ -120,7 +120,7 @@ static C05: Check = Check {
 static C06: Check = Check {
     property: "C06",
     level: "fault_enumeration",
-    rule: "one run = one honest blind session (shape from the same 642-combination table), then: on the BlindRequest hop every bit flip of the commitment-with-proof in slices of 112 bits across runs, truncation/extension by whole scalars, dropped/inserted response, cross-suite replay, commitment/proof splices with a second honest request; on the BlindCredential hop every single-element fault of the committed and signer message lists, message moved across the signer/committed boundary, 32 blind-factor bit flips per run (8 runs cover all 256), blind factor removed, header faults, 40 signature bit flips, pk faults, misroute; on the Presentation hop L corruption, every list / index fault of both disclosed lists, pair moved between lists, header/ph faults, 64 proof bit flips per run, whole-scalar truncation/extension, misroute; verdict by content",
+    rule: "one run = one honest blind session (shape from the same 642-combination table), then: on the BlindRequest hop every bit flip of the commitment-with-proof in slices of 112 bits across runs, truncation/extension by whole scalars, dropped/inserted response, cross-suite replay, commitment/proof splices with a second honest request; on the BlindCredential hop every single-element fault of the committed and signer message lists, message moved across the signer/committed boundary, 32 blind-factor bit flips per run (8 runs cover all 256), blind factor removed, header faults, 40 signature bit flips, pk faults, misroute; on the Presentation hop L corruption, every list / index fault of both disclosed lists, pair moved between lists, header/ph faults, 64 proof bit flips per run, whole-scalar truncation/extension, misroute; verdict by content; every fourth run commits to 128, 64, 32, 129, 33, 65, 127, 63 or 31 messages (walked by the run index); Mallory also sends a commitment point OUTSIDE the subgroup (C + T, T of order 3) with a proof ground until the challenge kills c*T, one frame per residue of the challenge modulo 3",
     quick_runs: 64,
     thorough_runs: 642,
     run: scen_blind::run_c06,
@@ -128,7 +128,7 @@ static C06: Check = Check {
     real: REAL,
     simulated: SIMULATED,
     exhaustive_after: None,
-    probes: &[],
+    probes: &["list_length_at_a_power_of_two_edge", "off_subgroup_commitment_with_ground_challenge"],
 };
 
 static C07: Check = Check {
@@ -148,7 +148,7 @@ static C07: Check = Check {
 static C10: Check = Check {
     property: "C10",
     level: "exploration",
-    rule: "one run = 12..31 deterministic operations (KeyGen/SkToPk across the ikm, key_info and DST size limits; create_generators for counts 0..=64, 255..257 (1000+ thorough) and plain / blind / BLIND_ / empty / arbitrary api_ids; messages_to_scalars; hash_to_scalar across the DST limit; Sign with L up to 257 and headers across 255/256; BlindSign on a fixed request and without one; accept/reject decisions of verify, proof_verify, blind_sign(request), verify_blind_sign, blind_proof_verify on honest and singly mutated artefacts) spread over 1, 2-4, 5-8 or 16 nodes and interleaved by the scheduler with tick preemption; plus, in every run, create_generators for one count of the complete range 0..=64 (0..=1100 thorough) per suite, walking through the whole range with the run index; each result is compared with the executable spec model (octets and Ok/Err) and, for a sample, with the same operation alone on a fresh thread; the model must first reproduce all 110 fixture vectors; a case = one operation; in 1 run of 6 a burst of concurrent Generators::create on two fresh api_ids (one request of 100-220 overlapping 36 shorter ones) compared with the model during and after; in 1 run of 4 the MANY-KEYS WINDOW: a proof verification (2-41 messages) parked by forced preemption at phase:proof_verify_init and starved while 8-16 one-message proofs under other issuer keys are verified on three other nodes (the attacker's key last in 3 of 4), for an honest long proof (model accepts) and for a proof made from a signature computed with the attacker's secret over the issuer's domain (model rejects)",
+    rule: "one run = 12..31 deterministic operations (KeyGen/SkToPk across the ikm, key_info and DST size limits; create_generators for counts 0..=64, 255..257 (1000+ thorough) and plain / blind / BLIND_ / empty / arbitrary api_ids; messages_to_scalars; hash_to_scalar across the DST limit; Sign with L up to 257 and headers across 255/256; BlindSign on a fixed request and without one; accept/reject decisions of verify, proof_verify, blind_sign(request), verify_blind_sign, blind_proof_verify on honest and singly mutated artefacts) spread over 1, 2-4, 5-8 or 16 nodes and interleaved by the scheduler with tick preemption; plus, in every run, create_generators for one count of the complete range 0..=64 (0..=1100 thorough) per suite, walking through the whole range with the run index; each result is compared with the executable spec model (octets and Ok/Err) and, for a sample, with the same operation alone on a fresh thread; the model must first reproduce all 110 fixture vectors; a case = one operation; in 1 run of 6 a burst of concurrent Generators::create on two fresh api_ids (one request of 100-220 overlapping 36 shorter ones) compared with the model during and after; in 1 run of 4 the MANY-KEYS WINDOW: a proof verification (2-41 messages) parked by forced preemption at phase:proof_verify_init and starved while 8-16 one-message proofs under other issuer keys are verified on three other nodes (the attacker's key last in 3 of 4), for an honest long proof (model accepts) and for a proof made from a signature computed with the attacker's secret over the issuer's domain (model rejects); Sign also under headers of 1023 .. 6000 octets, with one message of 1 .. 10 KiB, and for 32 / 33 / 64 / 65 / 128 / 129 / 258 messages",
     quick_runs: 160,
     thorough_runs: 1500,
     run: scen_conform::run_c10,
@@ -174,7 +174,7 @@ static C11: Check = Check {
 static C12: Check = Check {
     property: "C12",
     level: "exploration",
-    rule: "one run = one credential (L in 1..12; L = 1..6 in rotation on every fourth run with positions visited exhaustively) and a holder-intended history of up to 10 (thorough 32) single-message updates sent as UpdateRequest(i, old, new) frames over a channel that reorders, duplicates, drops and corrupts (index, old value) them; the Issuer applies them in arrival order; after each applied update the sequential model decides: correct old value => the reply verifies for the intended vector, keeps e, and its A equals B(vector)/(sk+e) computed by the spec model; index >= L => error; wrong old value (alteration, reorder, double application) => the reply must not verify for the intended vector; finally every epoch's signature is replayed against every other epoch's vector; a case = one update or one replay",
+    rule: "one run = one credential (L in 1..12; L = 1..6 in rotation on every fourth run with positions visited exhaustively) and a holder-intended history of up to 10 (thorough 32) single-message updates sent as UpdateRequest(i, old, new) frames over a channel that reorders, duplicates, drops and corrupts (index, old value) them; the Issuer applies them in arrival order; after each applied update the sequential model decides: correct old value => the reply verifies for the intended vector, keeps e, and its A equals B(vector)/(sk+e) computed by the spec model; index >= L => error; wrong old value (alteration, reorder, double application) => the reply must not verify for the intended vector; finally every epoch's signature is replayed against every other epoch's vector; a case = one update or one replay; 1 credential in 8 is long (65, 129, 254 .. 257 or 300 messages) and is updated at the positions around 64 / 128 / 254 .. 256 and at its last one",
     quick_runs: 300,
     thorough_runs: 1500,
     run: scen_update::run_c12,
@@ -182,7 +182,7 @@ static C12: Check = Check {
     real: REAL,
     simulated: SIMULATED,
     exhaustive_after: None,
-    probes: &[],
+    probes: &["long_credential_updated_near_its_end"],
 };
 
 fn node_init() {
